@@ -28,7 +28,8 @@
 (*               rip   |-> next rip - address of the instruction,           *)
 (*               undef |-> flags the architecture leaves undefined,         *)
 (*               ur    |-> registers left undefined (BSF/BSR of zero),      *)
-(*               fault |-> "" | "DE" (divide error)]                        *)
+(*               fault |-> "" | "DE" (divide error) | "UNDEF" (the whole    *)
+(*                         result is architecturally undefined)]            *)
 (*                                                                          *)
 (* Rules that differ per encoding and are therefore explicit: writes of a   *)
 (* 32-bit register zero the upper half, 8/16-bit writes preserve the rest   *)
@@ -159,8 +160,9 @@ Moves(s, f, len) ==
     [] f.mn = "cmpxchg" ->
          LET acc == RdReg(s.r, 0, 0, sz)  d == RdOp(s, f.o1, sz)  b == RdOp(s, f.o2, sz)
              F == SubF(acc, d, 0)  Pf == SetFl(P, F, FlagNames) IN
-         IF acc = d THEN WrOp(Pf, s, f.o1, sz, b)
-         ELSE WrOp(WrOp(Pf, s, f.o1, sz, d), s, Acc(sz), sz, d)     \* the destination is written back unchanged
+         \* equal: destination := source; otherwise accumulator := destination (a register destination is NOT
+         \* rewritten: its upper half survives a failed 32-bit compare - observed on the processor)
+         IF acc = d THEN WrOp(Pf, s, f.o1, sz, b) ELSE WrOp(Pf, s, Acc(sz), sz, d)
     [] f.mn = "bswap" -> LET a == RdOp(s, f.o1, sz) n == sz \div 8 IN
          WrOp(P, s, f.o1, sz, [i \in 1..sz |-> a[8 * (n - 1 - ((i - 1) \div 8)) + ((i - 1) % 8) + 1]])
     [] f.mn = "push" ->
@@ -180,7 +182,7 @@ Shift(s, f, len) ==
             P2 == Undef(P1, undefs \cup (IF c # 1 THEN {"of"} ELSE {}))
         IN WrOp(P2, s, f.o1, sz, res)
       bit(v, i) == IF i >= 1 /\ i <= Len(v) THEN v[i] ELSE 0
-  IN IF c = 0 THEN P
+  IN IF c = 0 THEN WrOp(P, s, f.o1, sz, a)        \* flags untouched; the destination is still written (r32: zero-extended)
      ELSE CASE f.mn = "shl" -> LET res == Shl(a, c) ncf == bit(a, sz - c + 1) IN
                                Fin(res, ncf, (Msb(res) + ncf) % 2, TRUE, {"af"} \cup (IF c >= sz THEN {"cf"} ELSE {}))
             [] f.mn = "shr" -> LET res == Lshr(a, c) IN
@@ -203,7 +205,7 @@ DShift(s, f, len) ==      \* shld / shrd  o1, o2, count (o3: imm8 or cl)
       ncf == IF f.mn = "shld" THEN a[sz - c + 1] ELSE a[c]
       F == Res(res, ncf, (Msb(res) + Msb(a)) % 2, 0)
   IN IF c = 0 THEN P
-     ELSE IF c > sz THEN [Undef(P, FlagNames) EXCEPT !.ur = {f.o1.n}]         \* 16-bit operand, count > 16: undefined
+     ELSE IF c > sz THEN [P EXCEPT !.fault = "UNDEF"]       \* 16-bit operand, count > 16: result and flags undefined
      ELSE WrOp(Undef(SetFl(P, F, FlagNames), {"af"} \cup (IF c # 1 THEN {"of"} ELSE {})), s, f.o1, sz, res)
 
 MulDiv(s, f, len) ==
